@@ -235,7 +235,8 @@ Req1(W, op, a) ==
       [] a.k = "float" -> IF a.c \in {"nan", "pinf", "ninf"} THEN ReqErr("C17")          \* invalid casts
                           ELSE IF a.x THEN LET t == Sgn(a.q) * (Abs(a.q) \div 4) IN
                                            IF t > MaxOf(W) \/ t < MinOf(W) THEN ReqErr("C17") ELSE ReqVal(IntV(t), "C16")
-                          ELSE IF "name" \in DOMAIN a /\ a.name \in {"huge", "nhuge"} THEN ReqErr("C17")                  \* out of range for every width
+                          ELSE IF "name" \in DOMAIN a /\ a.name \in {"huge", "nhuge", "maxp1", "maxp1h", "minm1"} THEN ReqErr("C17")   \* out of range
+                          ELSE IF "name" \in DOMAIN a /\ a.name = "minmh" THEN ReqVal(IntV(MinOf(W)), "C16")              \* MIN - 0.5 truncates to MIN
                           ELSE ReqKinds({"int", "err"}, "C16")
       [] OTHER -> ReqErr("C17")
   ELSE IF op = "to_float" THEN
